@@ -101,11 +101,11 @@ func (s *session) stream() bool { return s.cfg.proto == "tcp" }
 func (s *session) next(c *hx.Ctx, timeout time.Duration, tid uint16, wantTemplate bool) (*lib.Delivery, bool) {
 	deadline := time.Now().Add(timeout)
 	for {
-		ds, ok := s.coll.Wait(s.domain, s.seen+1, time.Until(deadline))
+		dp, ok := s.coll.Pop(s.domain, time.Until(deadline))
 		if !ok {
 			return nil, false
 		}
-		d := ds[s.seen]
+		d := *dp
 		s.seen++
 		if !s.stream() && d.Out.ExtractErr == nil {
 			if d.Out.SetID != tid && s.retired[d.Out.SetID] {
@@ -227,7 +227,7 @@ func main() {
 			if !s.stream() {
 				// let datagrams still in flight be delivered before template ids start again at 256
 				for last, quiet := -1, 0; quiet < 3; {
-					n := len(s.coll.Get(s.domain))
+					n := s.coll.Total()
 					if n == last {
 						quiet++
 					} else {
@@ -235,7 +235,10 @@ func main() {
 					}
 					time.Sleep(100 * time.Millisecond)
 				}
-				s.seen = len(s.coll.Get(s.domain))
+				for s.coll.Pending(s.domain) > 0 { // late datagrams of earlier cases
+					s.coll.Pop(s.domain, time.Millisecond)
+					c.Add("late_datagram_of_an_earlier_case_skipped", 1)
+				}
 			}
 			ep, err := newExporter(cfg, s.coll.Addr(), s.domain)
 			if err != nil {
